@@ -89,10 +89,9 @@ def rulesTokens : Except RuleErr (List RuleChain) → List String
   | .error e => [errTok e]
   | .ok cs => ["ok", toString cs.length] ++ cs.flatMap fun c => dumpChain c.rule c.retries
 
-def storageTokens : Res (Option (List StorageCfg)) → List String
-  | .panic _ => ["panic"]
-  | .ok none => ["err"]
-  | .ok (some cfgs) => ["ok", toString cfgs.length] ++ cfgs.flatMap fun c => [toHex c.id, toHex c.path, toString c.size]
+def storageTokens : Option (List StorageCfg) → List String
+  | none => ["err"]
+  | some cfgs => ["ok", toString cfgs.length] ++ cfgs.flatMap fun c => [toHex c.id, toHex c.path, toString c.size]
 
 def sectionToks (ts : List String) : List String := toString ts.length :: ts
 
@@ -168,10 +167,12 @@ def hConfig : Handler := fun impl => do
           | _ => false
         let nopanic := (secs.drop 6).all fun s => s ≠ ["panic"]
         -- "any configuration text is either rejected with an error or accepted": a crash of the
-        -- rule parser is neither (the storage parser's duplicate-id panic is finding C19-b and is
-        -- judged through its own class)
+        -- rule parser or of the storage parser (sections 3-5; a duplicate id/path panicked there
+        -- before the fix for finding C19-b) is neither
         let rulesNoPanic := (secs.take 3).all fun s => s ≠ ["panic"]
+        let storagesNoPanic := ((secs.drop 3).take 3).all fun s => s ≠ ["panic"]
         let bad := (if rulesNoPanic then [] else ["bad:C19:rule-parser-crashes-instead-of-accepting-or-rejecting"]) ++
+                   (if storagesNoPanic then [] else ["bad:C19:storage-parser-crashes-instead-of-accepting-or-rejecting"]) ++
                    (if whole then [] else ["bad:C19:partial-acceptance"]) ++
                    (if spell then [] else ["bad:C19:spellings-disagree"]) ++
                    (if nopanic then [] else ["bad:C19:query-panics-under-accepted-configuration"])
@@ -239,19 +240,18 @@ def hReqPath : Handler := fun impl => do
     let model := match res with
       | .panic _ => "panic"
       | .ok m => s!"ok {idxTok m.proxy} {idxTok m.copy}"
-    let cls := if inClass_C05_b host then "C05-b" else "-"
     let oracle :=
       if routingSecrets = some [] then "na"          -- outside the stated assumption RoutingSecrets ≠ []
       else if impl = ["panic"] then "bad:C19:request-panics-under-accepted-configuration"
       else "ok"
     let label := match res with
-      | .panic s => if s.startsWith "DropPort" then "panic:dropport" else if s.startsWith "ensure" then "panic:secrets" else "panic:slice"
-      | .ok m => if ¬ reparsed then "unparsable" else match m.proxy, m.copy with
+      | .panic s => if s.startsWith "ensure" then "panic:secrets" else "panic:slice"
+      | .ok m => if ¬ reparsed then (if host.head? = some 91 ∧ ¬ host.contains 93 then "unparsable:unclosed-bracket" else "unparsable") else match m.proxy, m.copy with
         | none, none => "nomatch"
         | some _, none => "proxy"
         | none, some _ => "copy-only"
         | some _, some _ => "proxy+copy"
-    return { model := model, oracle := oracle, cls := cls, label := label }
+    return { model := model, oracle := oracle, label := label }
 
 /-! ### reload -/
 
@@ -304,7 +304,6 @@ def restartOf : Fetch → Option State
   | .doc sum d => start sum d
 
 def stepClasses (s : State) (f : Fetch) : List String :=
-  (if inClass_C19_a f then ["C19-a"] else []) ++ (if inClass_C19_b f then ["C19-b"] else []) ++
   (if inClass_C19_d s f then ["C19-d"] else [])
 
 structure StepReport where
@@ -340,14 +339,14 @@ def runReload (s : State) (before : Option Obs) : List Fetch → List String →
         else if kind = .valid then some "bad:C19:successful-reload-not-like-restart"
         else some "bad:C19:failed-reload-changed-what-serves"
     let report : StepReport := ⟨verdict, classes⟩
-    match step s f with
-    | .panic _ => (["crash"], [report], ["crash"])
-    | .ok (s', e) =>
-      let toks := [endTok e] ++ obsTokens (observe reloadProbes reloadIds s') ++ restartToks
-      if implCrash then (toks, [report], [endTok e])
-      else
-        let (t2, r2, l2) := runReload s' implAfter more implNext
-        (toks ++ t2, report :: r2, endTok e :: l2)
+    -- the model's reloader cannot die (`step` is total); an implementation that does is a
+    -- difference, and the oracle above has judged it
+    let (s', e) := step s f
+    let toks := [endTok e] ++ obsTokens (observe reloadProbes reloadIds s') ++ restartToks
+    if implCrash then (toks, [report], [endTok e])
+    else
+      let (t2, r2, l2) := runReload s' implAfter more implNext
+      (toks ++ t2, report :: r2, endTok e :: l2)
 
 def hReload : Handler := fun impl => do
   let t0 ← pTree
